@@ -33,6 +33,7 @@ func init() {
 			{ID: "C12-R4", Title: "GetDefaultOS prefers the context OS", Floor: 1, Run: c12r4},
 			{ID: "C12-R5", Title: "the run context (and the OS in it) is derived from this invocation's context", Floor: 1, Run: runCtxFromArgument},
 			{ID: "C12-R6", Title: "VirtualOS methods stay virtual", Floor: 20, Run: virtualOSStaysVirtual},
+			{ID: "C12-R7", Title: "option lists handed to the VM come from Config.VMOpts", Floor: 2, Run: vmOptionsFromConfig},
 		},
 	})
 }
